@@ -814,9 +814,10 @@ CWRAPPER_OUTPUT_TYPE basic_mul_as_two_terms(basic term1, basic term2,
 //! Wrapper for LambdaRealDoubleVisitor
 typedef struct CLambdaRealDoubleVisitor CLambdaRealDoubleVisitor;
 CLambdaRealDoubleVisitor *lambda_real_double_visitor_new(void);
-void lambda_real_double_visitor_init(CLambdaRealDoubleVisitor *self,
-                                     const CVecBasic *args,
-                                     const CVecBasic *exprs, int perform_cse);
+CWRAPPER_OUTPUT_TYPE
+lambda_real_double_visitor_init(CLambdaRealDoubleVisitor *self,
+                                const CVecBasic *args, const CVecBasic *exprs,
+                                int perform_cse);
 void lambda_real_double_visitor_call(CLambdaRealDoubleVisitor *self,
                                      double *const outs,
                                      const double *const inps);
